@@ -1791,8 +1791,9 @@ def concatenate(
 
         omega = pulses[ind].omega
 
-    if not equal_n_opers and not calc_pulse_correlation_FF:
-        # Cannot reuse atomic filter functions
+    if (not equal_n_opers or not newpulse.basis.iscomplete) and not calc_pulse_correlation_FF:
+        # Cannot reuse atomic filter functions (for an incomplete basis the
+        # control matrices cannot be propagated with the transfer matrices)
         newpulse.cache_filter_function(omega, which=which)
         return newpulse
 
